@@ -138,4 +138,17 @@ func init() {
 			What:    "real CreateFunction on skeleton names (identical / unexported / case-differing names, getter only, getter and field, getter with error result, method with parameter, value and pointer receivers, String() on value vs pointer receiver, imported source with unexported members and getters) with all five toggles symbolic: candidate selection (getters first when on, fields only under :match name, accessibility across packages, getter eligibility) and conversion ladder equal the reference; emitted functions type-check",
 			Bounds:  "skeleton names: 3 methods x toggle valuations", Assumes: []string{aT, "a String() reachable only through the pointer receiver may or may not be used (not pinned by the property)"}})
 	}
+
+	// ---------------------------------------------------------------- mode G (generated code)
+	aG := "programs are the hand-written corpus (/verif/corpus); the tool built from /repo's current tree is RUN on each case at check time and the emitted functions are loaded into SSA next to hand-written reference functions (ref_M, written from the README, independent of the tool's output); operands: every scalar leaf a fresh symbolic value (ints as mathematical integers without wrap-around, floats opaque, strings unbounded SMT strings), every pointer below the non-nil top-level operands nil or allocated (depth <= 3), every slice nil / len 0 / 1 / 2; user functions of the corpus (converters, getters, String methods, hooks) are interpreted and record a call trace; numeric conversions are uninterpreted functions on both sides"
+	whatG := "the generated function M and the reference ref_M run on physically separate copies of the same arbitrary operands: no Go run-time panic in M; equal results (on success), equal final state of every by-pointer operand (destination as the reference leaves it, source unmodified), by-value operands equal to a pristine copy, equal returned error (the very error object), equal user-function call trace (so no later converter/getter/hook runs after a failure and hooks run once, in place, on the real operands), and no slice reachable from the result or destination shares backing storage with a source operand"
+	for _, pr := range []string{"C02", "C06", "C10"} {
+		reg(&HarnessSpec{Prop: pr, Name: "G:basic", What: whatG + " - corpus case basic (all four pointer/value operand combinations x both styles, :typecast/:stringer on and off, nested struct member-wise, explicit :skip exact+regexp/:map/:literal/:conv/:getter, $n additional arguments with & adaptation, :recv, :reverse, nested source paths and getters)", Bounds: "10 generated functions; pointer depth 3", Assumes: []string{aG}})
+	}
+	for _, pr := range []string{"C02", "C16"} {
+		reg(&HarnessSpec{Prop: pr, Name: "G:slices", What: whatG + " - corpus case slices (identical basic, int->named under :typecast, named->int, struct, pointer, string->interface{} elements; with and without :typecast; return and arg style): nil stays nil/unchanged, fresh storage, equal (converted) elements", Bounds: "3 generated functions; slice length <= 2", Assumes: []string{aG}})
+	}
+	for _, pr := range []string{"C02", "C07", "C10"} {
+		reg(&HarnessSpec{Prop: pr, Name: "G:errs", What: whatG + " - corpus case errs (three error-capable sites incl. a converter on a nested path and an error-returning getter; error-returning pre/post hooks in return and arg style with by-value destination; by-value hook; hook with additional argument): every failure subset is explored through the symbolic inputs that make each user function fail", Bounds: "4 generated functions; k <= 3 error-capable sites", Assumes: []string{aG}})
+	}
 }
